@@ -635,6 +635,11 @@ def split_rule(repo, rep):
 
 
 def run(repo, rep, tier):
+    rep.rule("R-C09-8", "(shared with C01) the celerity the wave-age rule compares with the wind is the linear-dispersion celerity at the given depth for EVERY depth "
+                        "(deep-water closed form only without a depth): a shortcut inside the finite-depth branch moves bins across the wind-sea / swell boundary")
+    from .c01 import closed_forms as _cf
+    from .c07 import _Relabel
+    _cf(repo, _Relabel(rep, "R-C09-8"))
     rep.rule("R-C09-7", "(shared with C01) the wave-age split compares the wind with the celerity AT THE GIVEN DEPTH: the wavenumber polynomial behind it sums every coefficient with its own power")
     from .shared import wavenumber_polynomial
     wavenumber_polynomial(repo, rep, "R-C09-7")
